@@ -3,6 +3,6 @@ CONSTANTS
   Peers = {"p1", "p2", "p3"}
   Self = "self"
   MaxEpoch = 4
-  Defects = {"StaleLeftEpoch", "StickyLeftFilter"}
+  Defects = {"StaleLeftEpoch", "LateStartReassign", "StickyLeftFilter"}
   Depth = 16
 CONSTRAINT Emit
